@@ -118,6 +118,10 @@ class Unit:
         m = re.search(r"(?m)^//@ tier (\w+)$", self.template)
         if m:
             self.tier = m.group(1)
+        self.rlimit = None
+        m = re.search(r"(?m)^//@ rlimit (\d+)$", self.template)
+        if m:
+            self.rlimit = int(m.group(1))
 
     def _src(self, rel):
         if rel not in self.sources:
@@ -296,7 +300,7 @@ class Unit:
                 src = s.split(None, 2)[2].strip()
                 i += 1
                 continue
-            if s.startswith("//@ props") or s.startswith("//@ unit") or s.startswith("//@ tier") or s.startswith("//@#"):
+            if s.startswith("//@ props") or s.startswith("//@ unit") or s.startswith("//@ tier") or s.startswith("//@ rlimit") or s.startswith("//@#"):
                 i += 1
                 continue
             if s.startswith("//@ item ") or s.startswith("//@ fn "):
@@ -426,7 +430,7 @@ def verify_unit(unit, tier, workdir):
         write(pth, t)
         mf_jobs.append((ef.out_name, pth, tgt.line_start, tgt.line_end))
     with ThreadPoolExecutor(14) as ex:
-        fut = ex.submit(run_verus_file, path, 600, None, 8)
+        fut = ex.submit(run_verus_file, path, 900, unit.rlimit, 8)
         mf_futs = [(j, ex.submit(run_verus_file, j[1], 300, None, 1)) for j in mf_jobs]
         rc, js, diags, wall, cmd = fut.result()
         mf_results = [(j, f.result()) for j, f in mf_futs]
